@@ -373,7 +373,7 @@ func hasVisitedScan(ci ssa.CallInstruction, list ssa.Value) bool {
 		}
 		t, _ := boolEdges(fn, cl)
 		for _, e := range t {
-			if okr, _ := returnsNonNilErrorFrom(e.To()); okr && cl.Block().Dominates(ci.Block()) {
+			if okr, _ := returnsNonNilErrorFrom(e.To()); okr && blockDominates(cl.Block(), ci.Block()) {
 				return true
 			}
 		}
@@ -438,7 +438,7 @@ func hasVisitedScan(ci ssa.CallInstruction, list ssa.Value) bool {
 					}
 				}
 			}
-			if found && head.Dominates(ci.Block()) && !reaches(ci.Block(), head) {
+			if found && blockDominates(head, ci.Block()) && !reaches(ci.Block(), head) {
 				return true
 			}
 		}
@@ -783,7 +783,7 @@ func classifyPanic(p *Prog, fn *ssa.Function, pn *ssa.Panic) string {
 	b := pn.Block()
 	// default arm of a type switch: the block is reached only when several TypeAssert(commaok) failed
 	nAssert := 0
-	for d := b.Idom(); d != nil; d = d.Idom() {
+	for d := idomOf(b); d != nil; d = idomOf(d) {
 		if len(d.Instrs) == 0 {
 			continue
 		}
@@ -833,7 +833,7 @@ func classifyPanic(p *Prog, fn *ssa.Function, pn *ssa.Panic) string {
 	}
 	// a consistency check on the result of a library call (e.g. the post-split
 	// registry address must have no sub-directory): listed, not proved.
-	for d := b; d != nil; d = d.Idom() {
+	for d := b; d != nil; d = idomOf(d) {
 		if len(d.Instrs) == 0 {
 			continue
 		}
@@ -1280,7 +1280,7 @@ func ruleC19NilField(c *Checker) {
 func checkSplitFirst(c *Checker, R string, fn *ssa.Function, panicBlock *ssa.BasicBlock) {
 	p := c.P
 	var lib *ssa.Call
-	for d := panicBlock.Idom(); d != nil && lib == nil; d = d.Idom() {
+	for d := idomOf(panicBlock); d != nil && lib == nil; d = idomOf(d) {
 		ifi, ok := d.Instrs[len(d.Instrs)-1].(*ssa.If)
 		if !ok {
 			continue
